@@ -29,6 +29,11 @@ theorem TrEq.trans {a b c : Scan} (h1 : TrEq a b) (h2 : TrEq b c) : TrEq a c :=
 
 theorem TrEq.of_eq {a b : Scan} (h : a = b) : TrEq a b := h ▸ TrEq.refl a
 
+/-- The state is unchanged (text without parentheses and bars outside of escapes and classes). -/
+def SEq (a b : Scan) : Prop := b = a
+
+theorem SEq.tr {a b : Scan} (h : SEq a b) : TrEq a b := TrEq.of_eq h.symm
+
 section
 variable {fl : Flags}
 
@@ -76,10 +81,16 @@ theorem scan_bs (f : Nat) (d : Nat) (r : List Nat) (sc : Scan) :
   rw [scanLoop.eq_def]; dsimp only
   simp only [show ((0x5C : Nat) == 0x5C) = true from rfl, if_true, List.drop]
 
-theorem scans_plain : ∀ (t : List Nat), (∀ c ∈ t, plainC c = true) → Scans fl t TrEq := by
+theorem Scans.tr {t : List Nat} (h : Scans fl t SEq) : Scans fl t TrEq := h.mono (fun _ _ h => h.tr)
+
+theorem Scans.append_seq {t1 t2 : List Nat} (h1 : Scans fl t1 SEq) (h2 : Scans fl t2 SEq) :
+    Scans fl (t1 ++ t2) SEq :=
+  (h1.append h2).mono (fun _ _ ⟨_, a, b⟩ => by unfold SEq at *; rw [b, a])
+
+theorem scans_plain : ∀ (t : List Nat), (∀ c ∈ t, plainC c = true) → Scans fl t SEq := by
   intro t
   induction t with
-  | nil => intro _; exact Scans.nil.mono (fun _ _ h => TrEq.of_eq h)
+  | nil => intro _; exact Scans.nil.mono (fun _ _ h => h.symm)
   | cons c t ih =>
     intro h sc rest fuel hf
     obtain ⟨f, rfl⟩ : ∃ f, fuel = f + 1 := ⟨fuel - 1, by simp at hf; omega⟩
@@ -88,7 +99,7 @@ theorem scans_plain : ∀ (t : List Nat), (∀ c ∈ t, plainC c = true) → Sca
 
 /-- `\d` followed by plain text. -/
 theorem scans_esc (d : Nat) (t : List Nat) (h : ∀ c ∈ t, plainC c = true) :
-    Scans fl (0x5C :: d :: t) TrEq := by
+    Scans fl (0x5C :: d :: t) SEq := by
   intro sc rest fuel hf
   obtain ⟨f, rfl⟩ : ∃ f, fuel = f + 1 := ⟨fuel - 1, by simp at hf; omega⟩
   obtain ⟨sc', f', h1, h2, h3⟩ := scans_plain t h sc rest f (by simp at hf ⊢; omega)
@@ -226,7 +237,7 @@ theorem plain_hex4 (c : Nat) : ∀ d ∈ hex4 c, plainC d = true := by
   simp only [hex4, List.mem_cons, List.not_mem_nil, or_false] at hd
   rcases hd with rfl | rfl | rfl | rfl <;> exact plainC_hexDig _ (Nat.mod_lt _ (by decide))
 
-theorem scans_printChar (c : Nat) : Scans fl (printChar c) TrEq := by
+theorem scans_printChar (c : Nat) : Scans fl (printChar c) SEq := by
   rcases printChar_cases c with ⟨h, e⟩ | ⟨_, _, e⟩ | ⟨_, _, _, _, e⟩ | ⟨_, h, e⟩ <;> rw [e]
   · exact scans_plain _ (by intro d hd; simp at hd; subst hd; exact plainC_alpha h)
   · exact scans_esc _ _ (plain_hex2 c)
@@ -236,7 +247,7 @@ theorem scans_printChar (c : Nat) : Scans fl (printChar c) TrEq := by
 theorem plain_printDec (n : Nat) : ∀ d ∈ printDec n, plainC d = true :=
   fun d hd => plainC_digit (printDec_digit n d hd)
 
-theorem scans_printQuant (mn : Nat) (mx : Option Nat) (g : Bool) : Scans fl (printQuant mn mx g) TrEq := by
+theorem scans_printQuant (mn : Nat) (mx : Option Nat) (g : Bool) : Scans fl (printQuant mn mx g) SEq := by
   apply scans_plain
   intro d hd
   simp only [printQuant, List.mem_append, List.mem_cons, List.not_mem_nil, or_false] at hd
@@ -251,7 +262,7 @@ theorem scans_printQuant (mn : Nat) (mx : Option Nat) (g : Bool) : Scans fl (pri
   · cases g <;> simp at hd
     subst hd; decide
 
-theorem scans_printEsc (e : ES.ClassEsc) : Scans fl (printEsc e) TrEq :=
+theorem scans_printEsc (e : ES.ClassEsc) : Scans fl (printEsc e) SEq :=
   scans_esc _ [] (by intro d hd; cases hd)
 
 theorem plainC_alnum {b : Nat} (h : (Props.isAsciiAlnum b || b == 0x5F) = true) : plainC b = true := by
@@ -260,7 +271,7 @@ theorem plainC_alnum {b : Nat} (h : (Props.isAsciiAlnum b || b == 0x5F) = true) 
   omega
 
 theorem scans_printProp (neg : Bool) (kind name : Nat) (h : propNameOK name = true) :
-    Scans fl (printProp neg kind name) TrEq := by
+    Scans fl (printProp neg kind name) SEq := by
   simp only [propNameOK, Bool.and_eq_true, List.all_eq_true] at h
   simp only [printProp, List.cons_append, List.nil_append, List.append_assoc]
   apply scans_esc
@@ -294,7 +305,7 @@ theorem plain_name {nm : List Nat} (h : nameOK nm = true) : ∀ d ∈ nm, plainC
   · exact plainC_idStart h2
   · exact plainC_idCont (ht d hd).2
 
-theorem scans_nref {nm : List Nat} (h : nameOK nm = true) : Scans fl ([0x5C, 0x6B, 0x3C] ++ nm ++ [0x3E]) TrEq := by
+theorem scans_nref {nm : List Nat} (h : nameOK nm = true) : Scans fl ([0x5C, 0x6B, 0x3C] ++ nm ++ [0x3E]) SEq := by
   simp only [List.cons_append, List.nil_append]
   apply scans_esc
   intro d hd
@@ -313,7 +324,7 @@ theorem scans_open_nc {x : Nat} (t : List Nat) (hx : x ≠ 0x3C) (hp : plainC x 
   obtain ⟨sc', f', h3, h4, h5⟩ := scans_plain (fl := fl) (x :: t)
     (by intro d hd; rcases List.mem_cons.1 hd with rfl | hd; exact hp; exact ht d hd) sc1 rest f
     (by simp at hf ⊢; omega)
-  exact ⟨sc', f', h3, by simp only [List.cons_append] at h2 h4 ⊢; rw [h2, h4], h1.trans h5⟩
+  exact ⟨sc', f', h3, by simp only [List.cons_append] at h2 h4 ⊢; rw [h2, h4], h1.trans h5.tr⟩
 
 theorem scans_wrapOpen : Scans fl [0x28, 0x3F, 0x3A] TrEq :=
   scans_open_nc [] (by decide) (by decide) (by intro d hd; cases hd)
